@@ -18,6 +18,18 @@ fn reporter(y: usize, x: usize, m: Module) -> String {
     format!("M{},{}t{}v{};", x, y, m.module_type() as u8, m.value() as u8)
 }
 
+thread_local! {
+    /// calls received by `recorder` on this thread: (y, x, type, value)
+    static CALLS: std::cell::RefCell<Vec<(usize, usize, u8, u8)>> = std::cell::RefCell::new(Vec::new());
+}
+
+/// user callback for renderers whose output cannot be read back (raster): records what it was given and draws a unit
+/// square
+fn recorder(y: usize, x: usize, m: Module) -> String {
+    CALLS.with(|c| c.borrow_mut().push((y, x, m.module_type() as u8, m.value() as u8)));
+    format!("M{},{}h1v1h-1", x, y)
+}
+
 pub fn check(bc: &BuildCase, with_callback: bool, obs: &mut Obs) -> Result<(), Fail> {
     let built = match do_build(bc)? {
         Ok(b) => b,
@@ -105,6 +117,57 @@ pub fn check(bc: &BuildCase, with_callback: bool, obs: &mut Obs) -> Result<(), F
             ensure!(seen[i] == built.qr.data[i].value(), "callback_missing", "callback {} for (row {}, col {}) although the module is {}", if seen[i] { "invoked" } else { "not invoked" }, i / n, i % n, if seen[i] { "light" } else { "dark" });
         }
         obs.label("with_callback");
+        // the same callback contract through the raster builder (ImageBuilder), at original scale and with fit
+        // requests, alone and next to a built-in layer; small symbols only (a raster costs milliseconds)
+        if n <= 45 && bc.hash() % 2 == 0 {
+            let variant = (bc.hash() / 2) % 4;
+            CALLS.with(|c| c.borrow_mut().clear());
+            let side = (n + 2 * margin) as u32;
+            catch(|| {
+                let mut ib = fast_qr::convert::image::ImageBuilder::default();
+                ib.margin(margin);
+                match variant {
+                    0 => {
+                        ib.shape(Shape::Command(recorder));
+                    }
+                    1 => {
+                        ib.shape(Shape::Command(recorder));
+                        ib.fit_width(side * 3);
+                    }
+                    2 => {
+                        ib.shape(Shape::Square);
+                        ib.shape_color(Shape::Command(recorder), [200u8, 30, 30]);
+                        ib.fit_height(side * 2 + 7);
+                    }
+                    _ => {
+                        ib.shape(Shape::Command(recorder));
+                        ib.fit_width(side * 2);
+                        ib.fit_height(side * 2);
+                    }
+                }
+                ib.to_pixmap(&built.qr).width()
+            })
+            .map_err(|p| Fail { sig: panic_sig(&p), msg: format!("ImageBuilder with a Command shape panicked: {}", p) })?;
+            let calls = CALLS.with(|c| std::mem::take(&mut *c.borrow_mut()));
+            let mut seen = vec![false; n * n];
+            for (y, x, t, val) in calls {
+                ensure!(x >= margin && y >= margin && x < n + margin && y < n + margin, "callback_coord:raster", "raster callback invoked at x={} y={} outside the symbol (margin {}, size {})", x, y, margin, n);
+                let (r, c) = (y - margin, x - margin);
+                let want = expected_label(g.region[r * n + c]);
+                ensure!(
+                    t == want as u8 && val == 1,
+                    "callback_label:raster",
+                    "v{}: ImageBuilder (variant {}) callback at (row {}, col {}) received type {} value {}, expected {:?} (= {}) and a dark module",
+                    v, variant, r, c, t, val, want, want as u8
+                );
+                ensure!(!seen[r * n + c], "callback_dup:raster", "raster callback invoked twice for (row {}, col {})", r, c);
+                seen[r * n + c] = true;
+            }
+            for i in 0..n * n {
+                ensure!(seen[i] == built.qr.data[i].value(), "callback_missing:raster", "raster callback {} for (row {}, col {})", if seen[i] { "invoked for a light module" } else { "not invoked for a dark module" }, i / n, i % n);
+            }
+            obs.label(&format!("raster_callback_variant:{}", variant));
+        }
     }
     obs.label(&format!("band:{}", crate::gens::version_band(v)));
     obs.nontrivial(bc.hash());
